@@ -763,6 +763,7 @@ static int core_action(char *op, int guard, char *a1, char *a2)
 		i = mt_objnum(a1, 't');
 		if (T[i].exists != 1 || T[i].owner != me_) return 1;
 		if (guard && iv_timer_registered(T[i].o)) return 1;
+		if (!strcmp(op, "trel") && ns > 0 && mt_vclock > 9000000000000000000LL - ns) return 1;	/* virtual time is a long long of ns */
 		if (!strcmp(op, "trel")) ns += mt_vclock;
 		if (!iv_timer_registered(T[i].o)) ts_of(ns, &T[i].o->expires);
 		mt_log("API timerRegister t%d %lld %lld\n", i, (long long)T[i].o->expires.tv_sec, (long long)T[i].o->expires.tv_nsec);
